@@ -763,6 +763,11 @@ func runC14(r *Rand, tier string, o *Out) {
 		}
 		o.Count("scenario:subscriber-leaves-during-an-announcement")
 	}
+	// one user id for two properties of an object on one connection
+	if out := o.Do("P", "pr.sameuid", true); out != "first=accepted second=refused event=42 unregister=answered" {
+		o.Fail("change events: registrations of one connection under one user id", "pr.sameuid => "+out)
+	}
+	o.Count("scenario:one-user-id-for-two-properties")
 	// a subscriber's connection is lost while an announcement waits in the write to it
 	for i := 0; i < 2; i++ {
 		if out := o.Do("P", "pr.hanguprace", true); out != "[42 43] [42 43]" {
